@@ -321,6 +321,17 @@ pub fn run(rep: &mut Report, backend: Bk, thorough: bool) {
                     eprintln!("DEBUG2 {backend:?} {label} {slabel} -> {kind} changed={}", before != after);
                 }
                 *outcomes.lock().unwrap().entry(format!("{kname}:{label}:{slabel}:{kind}")).or_insert(0) += 1;
+                // whatever the answer, only a commit moves a group to another epoch
+                if kname != "commit" && !kname.starts_with("admin-commit") {
+                    let ep = |v: &Value| -> Vec<Option<u64>> { v["groups"].as_array().map(|a| a.iter().map(|g| g["mls"]["epoch"].as_u64()).collect()).unwrap_or_default() };
+                    if ep(&before) != ep(&after) {
+                        findings.lock().unwrap().push((
+                            format!("C06|event-that-is-not-a-commit-changed-the-epoch|{kname}|{label}|{slabel}|{kind}"),
+                            format!("a {kname} ({label}) in state {slabel} is answered {kind} and the group's epoch went from {:?} to {:?}", ep(&before), ep(&after)),
+                            json!({"event_kind": kname, "mutation": label, "state": slabel, "result": kind, "backend": format!("{backend:?}")}),
+                        ));
+                    }
+                }
                 if kind == "PANIC" {
                     findings.lock().unwrap().push((format!("C06|panic|{kname}|{label}|{slabel}"), format!("process_message panics on a {kname} with {label} in state {slabel}"), json!({"event_kind": kname, "mutation": label, "state": slabel, "event": ev, "backend": format!("{backend:?}")})));
                 } else if refused(&kind) && before != after {
